@@ -298,3 +298,14 @@ func stripDigits(s string) string {
 	}
 	return b.String()
 }
+
+// NewScratchRec returns a recorder that is not connected to the run (used to probe variants of a case).
+func NewScratchRec(c Case) *Rec { return &Rec{cover: map[string]int{}, cur: c} }
+
+// First returns the first recorded violation (site, message).
+func (r *Rec) First() (string, string) {
+	if len(r.viol) == 0 {
+		return "", ""
+	}
+	return r.viol[0].Site, r.viol[0].Msg
+}
